@@ -22,6 +22,9 @@ class ConcreteDomain:
     def assume(self, path, c, orig, branch):
         pass
 
+    def cond_key(self, c):
+        return ("z3", c.get_id()) if hasattr(c, "get_id") else ("py", id(c))
+
 
 class BVDomain:
     def __init__(self, timeout_ms=60000):
@@ -194,3 +197,6 @@ class BVDomain:
 
     def assume(self, path, c, orig, branch):
         pass
+
+    def cond_key(self, c):
+        return ("z3", c.get_id()) if hasattr(c, "get_id") else ("py", id(c))
